@@ -575,7 +575,8 @@ def run(ctx):
                     runs.append((dot, use_ov, res))
             if runs and not search_only:
                 exprs.append(model_expr_group(case, cname, defm, runs))
-                meta.append({'case': case, 'codec': cname, 'defMode': defm, 'variants': [(a, b) for a, b, _ in runs]})
+                meta.append({'case': case, 'codec': cname, 'defMode': defm, 'variants': [(a, b) for a, b, _ in runs],
+                             'class': fid})
     if cases:
         c0 = cases[0]
         ctx.sample({'outer': outer_desc(c0), 'map': c0['map'], 'gov': c0['gov'], 'inner': c0['inner']})
@@ -587,7 +588,9 @@ def run(ctx):
                 ctx.stats['model_declines'] += 1
                 if hasattr(ctx, 'declined'): ctx.declined.append(m)
             else:
-                ctx.corr_fail('model and implementation disagree on an open record (encoding or one of the decode variants)', m, finding=None)
+                # what the decoder makes of the malformed octets F01 produces is not this property's business
+                ctx.corr_fail('model and implementation disagree on an open record (encoding or one of the decode variants)', m,
+                              finding='F01' if m['class'] == 'F01' else None)
 
 
 def replay(data):
